@@ -423,7 +423,7 @@ class Cid(object):
                 )
             if field_length.lower_limit < 1:
                 raise errors.InterfaceError(
-                    "length of field %s for fixed data format must be at least 1 but is: %d"
+                    "length of field %s for fixed data format must be at least 1 but is: %s"
                     % (_compat.text_repr(field_name), field_format.length.lower_limit),
                     self._location,
                 )
@@ -437,7 +437,7 @@ class Cid(object):
         elif field_length.lower_limit is not None:
             if field_length.lower_limit < 0:
                 raise errors.InterfaceError(
-                    "lower limit for length of field %s must be at least 0 but is: %d"
+                    "lower limit for length of field %s must be at least 0 but is: %s"
                     % (_compat.text_repr(field_name), field_format.length.lower_limit),
                     self._location,
                 )
@@ -445,7 +445,7 @@ class Cid(object):
             # Note: 0 as upper limit is valid for a field that must always be empty.
             if field_length.upper_limit < 0:
                 raise errors.InterfaceError(
-                    "upper limit for length of field %s must be at least 0 but is: %d"
+                    "upper limit for length of field %s must be at least 0 but is: %s"
                     % (_compat.text_repr(field_name), field_format.length.upper_limit),
                     self._location,
                 )
